@@ -760,6 +760,7 @@ def _callees(ctx, qual):
 
 _REACH_CACHE = {}
 _SYN_CACHE = {}
+_PLUMBING = {}
 
 
 def _syntactic_graph(repo):
@@ -825,9 +826,10 @@ def _auto(ctx, prop, lib):
             nxt = {f for f, cs in g.items() if cs & frontier and f not in anchored and f not in up}
             up |= nxt
             frontier = nxt
-        seen |= up
-        _REACH_CACHE[key] = seen
-    reach = _REACH_CACHE[key]
+        classes = {cq for cq, (node, m) in ctx.repo.classes.items() if os.path.relpath(m.path, ctx.repo.root) in files}
+        _REACH_CACHE[key] = (seen | up, up - seen, anchored | classes | up)
+    reach, up_only, targets = _REACH_CACHE[key]
+    _PLUMBING[(ctx.repo.root, prop)] = (up_only, targets)
     out = []
     for qual in lib:
         if qual in EXCLUDE_AUTO or not ctx.repo.has_func(qual):
@@ -851,10 +853,21 @@ def run_for(ctx, prop):
     for q in _auto(ctx, prop, lib):
         if q not in quals:
             quals.append(q)
+    explicit = set(ATTACH.get(prop, []))
+    up_only, targets = _PLUMBING.get((ctx.repo.root, prop), (set(), set()))
     for qual in quals:
         r = lib[qual]
         short = qual.replace('cooler.', '')
         rule = f'REF.{short}'
+        # a function that is attached only because it calls INTO the anchored code is compared as
+        # plumbing: which of those functions it calls, with which arguments, under which conditions
+        if qual not in explicit and ctx.repo.func(qual).qualname in up_only:
+            fa = ctx.fa(qual)
+            compare(ctx, f'PLUMB.{short}', fa, r['src'], module=r['module'], callsites=targets,
+                    why='calls into the code this property is anchored in: callee, arguments and conditions (' + r['why'] + ')',
+                    drop_guards=r.get('drop_guards') or ())
+            n += 1
+            continue
         # skip when the property module already compared this very function with this reference
         already = [ob for ob in ctx.obligations if ob['where'].endswith(' ' + qual) and
                    (ob['instance'].split('#')[0] in ('raise', 'return', 'yield', 'yield_from', 'store_sub', 'store_attr', 'aug_sub',
